@@ -62,6 +62,7 @@ I64Parse(s)          == s      \* its value as canonical decimal string ("" when
 F64Parse(s)          == s      \* Go strconv.ParseFloat(s, 64) of digits with an optional '.', as bits; "" when it fails
 StrIndexAny(s, i, c) == 0      \* smallest j >= i with s[j] among the chars of c, StrLen(s)+1 when none
 StrFromBytes(seq)    == ""     \* the byte string with these byte values
+StrRLE(s)            == <<>>   \* run-length form: the tuple of <<byte, count>> runs of s
 \* ---- C14 block - end
 \* ---- GrolLib block (extension functions of the reference semantics) - begin
 F64Floor(a) == a      F64Ceil(a) == a      F64Trunc(a) == a      F64Sqrt(a) == a
